@@ -32,9 +32,15 @@ import (
 	"sync"
 	"time"
 
+	"sync/atomic"
+
 	"github.com/fasthttp/websocket"
 	"github.com/hprose/hprose-golang/v3/rpc"
 	"github.com/hprose/hprose-golang/v3/rpc/core"
+	rpchttp "github.com/hprose/hprose-golang/v3/rpc/http"
+	rpcfasthttp "github.com/hprose/hprose-golang/v3/rpc/http/fasthttp"
+	"github.com/hprose/hprose-golang/v3/rpc/mock"
+	"github.com/valyala/fasthttp"
 )
 
 // ---------------------------------------------------------------------------------- case / observation
@@ -69,6 +75,8 @@ type Probe struct {
 	SendG    int               `json:"send_g"`            // goroutines inside (*conn).Send of the transport package, minus baseline
 	RecvG    int               `json:"recv_g"`
 	CallG    int               `json:"call_g"`           // goroutines inside (*conn).Transport
+	Opened   int               `json:"opened"`           // connections of the client's multiplexed transports: OnConnect calls ...
+	Closed   int               `json:"closed"`           // ... and OnClose calls so far
 	Parked   map[string]string `json:"parked,omitempty"` // caller -> goroutine state if it sits in (*conn).Transport
 	Returned []int             `json:"returned"`
 }
@@ -95,6 +103,7 @@ type runState struct {
 	goids   map[int64]int // goroutine id -> caller
 	connIDs map[interface{}]int
 	connOf  []interface{}
+	pkg     string // transport package of the case: hook events of other packages' connections are not its own
 	// hook control
 	holds   map[string]chan struct{} // who|point -> release channel
 	arrived map[string]chan struct{} // who|point -> closed on arrival
@@ -577,6 +586,40 @@ func newService(kind string, rs *runState) (*service, error) {
 		go server.Serve(ln)
 		s.url = "ws://" + ln.Addr().String() + "/"
 		s.stop = func() { server.Close() }
+	case "http":
+		ln, err := net.Listen("tcp", "127.0.0.1:0")
+		if err != nil {
+			return nil, err
+		}
+		server := &http.Server{}
+		if err := svc.Bind(server); err != nil {
+			return nil, err
+		}
+		go server.Serve(ln)
+		rpchttp.RegisterTransport() // scheme http -> net/http client
+		s.url = "http://" + ln.Addr().String() + "/"
+		s.stop = func() { server.Close() }
+	case "fasthttp":
+		ln, err := net.Listen("tcp", "127.0.0.1:0")
+		if err != nil {
+			return nil, err
+		}
+		server := &fasthttp.Server{}
+		if err := svc.Bind(server); err != nil {
+			return nil, err
+		}
+		go server.Serve(ln)
+		rpcfasthttp.RegisterTransport() // scheme http -> fasthttp client
+		s.url = "http://" + ln.Addr().String() + "/"
+		s.stop = func() { ln.Close(); rpchttp.RegisterTransport() }
+	case "mock":
+		addr := fmt.Sprintf("hv-mux-%d", time.Now().UnixNano())
+		server := mock.Server{Address: addr}
+		if err := svc.Bind(server); err != nil {
+			return nil, err
+		}
+		s.url = "mock://" + addr
+		s.stop = func() { server.Close() }
 	default:
 		return nil, fmt.Errorf("unknown transport %q", kind)
 	}
@@ -723,6 +766,7 @@ func Run(c *Case) *Obs {
 	rs := &runState{results: map[int]string{}, done: map[int]chan struct{}{}, cancel: map[int]context.CancelFunc{},
 		goids: map[int64]int{}, connIDs: map[interface{}]int{}, holds: map[string]chan struct{}{}, arrived: map[string]chan struct{}{}}
 	cur = rs
+	rs.pkg = map[string]string{"tcp": "socket", "unix": "socket", "udp": "udp", "ws": "websocket"}[c.Transport]
 	o.HookUsed = HookAvailable
 	installHooks(rs)
 	defer uninstallHooks()
@@ -754,6 +798,13 @@ func Run(c *Case) *Obs {
 	}
 	client := rpc.NewClient(url)
 	client.Timeout = 10 * time.Second
+	var opened, closed int32
+	rpc.SocketTransport(client).OnConnect = func(c net.Conn) net.Conn { atomic.AddInt32(&opened, 1); return c }
+	rpc.SocketTransport(client).OnClose = func(net.Conn) { atomic.AddInt32(&closed, 1) }
+	rpc.UDPTransport(client).OnConnect = func(c net.Conn) net.Conn { atomic.AddInt32(&opened, 1); return c }
+	rpc.UDPTransport(client).OnClose = func(net.Conn) { atomic.AddInt32(&closed, 1) }
+	rpc.WebSocketTransport(client).OnConnect = func(c *websocket.Conn) *websocket.Conn { atomic.AddInt32(&opened, 1); return c }
+	rpc.WebSocketTransport(client).OnClose = func(*websocket.Conn) { atomic.AddInt32(&closed, 1) }
 	base := takeCensus()
 	defer func() {
 		client.Abort()
@@ -818,7 +869,8 @@ func Run(c *Case) *Obs {
 	probe := func(name string) {
 		cs := takeCensus()
 		sg, rg, cg := cs.since(base)
-		pr := Probe{Name: name, Pooled: -1, SendG: sg, RecvG: rg, CallG: cg, Parked: map[string]string{}}
+		pr := Probe{Name: name, Pooled: -1, SendG: sg, RecvG: rg, CallG: cg, Parked: map[string]string{},
+			Opened: int(atomic.LoadInt32(&opened)), Closed: int(atomic.LoadInt32(&closed))}
 		rs.mu.Lock()
 		for g, k := range rs.goids {
 			if st, ok := cs.callState[g]; ok {
@@ -868,6 +920,22 @@ func Run(c *Case) *Obs {
 					break
 				}
 				time.Sleep(200 * time.Microsecond)
+			}
+		case "await_svc": // ["await_svc", n, ms]: until the real service has received n requests
+			deadline := time.Now().Add(time.Duration(num(arg(2))) * time.Millisecond)
+			for {
+				rs.mu.Lock()
+				n := 0
+				for _, e := range rs.log {
+					if e.E == "svc-recv" {
+						n++
+					}
+				}
+				rs.mu.Unlock()
+				if n >= num(arg(1)) || time.Now().After(deadline) {
+					break
+				}
+				time.Sleep(500 * time.Microsecond)
 			}
 		case "auto":
 			if p != nil {
@@ -979,6 +1047,43 @@ func Run(c *Case) *Obs {
 	}
 	rs.mu.Lock()
 	o.Log = append([]Event{}, rs.log...)
+	rs.mu.Unlock()
+	// teardown (not part of the replayed history): everything still inside Request is let go, Client.Abort, and then
+	// every connection that was ever opened must be closed and no Send/Receive goroutine of this case may be left
+	rs.mu.Lock()
+	for _, cf := range rs.cancel {
+		cf()
+	}
+	for key, ch := range rs.holds {
+		select {
+		case <-ch:
+		default:
+			close(ch)
+		}
+		delete(rs.holds, key)
+	}
+	dones := []chan struct{}{}
+	for _, d := range rs.done {
+		dones = append(dones, d)
+	}
+	rs.mu.Unlock()
+	for _, d := range dones {
+		select {
+		case <-d:
+		case <-time.After(2 * time.Second):
+		}
+	}
+	client.Abort()
+	for wait := 0; wait < 150; wait++ {
+		cs := takeCensus()
+		sg, rg, _ := cs.since(base)
+		if sg == 0 && rg == 0 && atomic.LoadInt32(&opened) == atomic.LoadInt32(&closed) {
+			break
+		}
+		time.Sleep(10 * time.Millisecond)
+	}
+	probe("teardown")
+	rs.mu.Lock()
 	for k, v := range rs.results {
 		o.Results[strconv.Itoa(k)] = v
 		if isEnvErr(v) {
